@@ -314,7 +314,14 @@ func TestC12(t *testing.T) {
 	realSockets(t, r, run)
 
 	if r.Violations() == 0 {
-		concurrentAttempts(t, r)
+		concurrentAttempts(t, r, nil)
+	}
+	// the same with an unrepresentable item in the store, so that the
+	// exporters' rejection paths run while writers queue for the locks
+	for _, kind := range []string{"non-utf8-label-value", "invalid-key-name", "key-named-prog", "invalid-metric-name"} {
+		if r.Violations() == 0 {
+			concurrentAttempts(t, r, &fault{Exporter: "all", Kind: kind, Metric: 1, LabelSet: 1, M: 3, L: 3})
+		}
 	}
 }
 
@@ -322,8 +329,8 @@ func TestC12(t *testing.T) {
 // writers take the metrics' write locks the way running programs and the GC
 // do. Every attempt and every write must complete; a stall is judged on the
 // goroutine dump (who waits on which lock), see ev.Guard.
-func concurrentAttempts(t *testing.T, r *ev.Run) {
-	st, ms := buildStore(3, 3, nil)
+func concurrentAttempts(t *testing.T, r *ev.Run, bad *fault) {
+	st, ms := buildStore(3, 3, bad)
 	e, err := exporter.New(context.Background(), st, exporter.Hostname("h"), exporter.DisableExport(), exporter.EmitTimestamp())
 	if err != nil {
 		t.Fatal(err)
@@ -331,7 +338,11 @@ func concurrentAttempts(t *testing.T, r *ev.Run) {
 	defer e.Stop()
 	nExp, nWr := ev.Pick(400, 4000), ev.Pick(20000, 200000)
 	var attempts, writes atomic.Int64
-	r.Guard("export attempts concurrent with write-locking updates", func() {
+	what := "export attempts concurrent with write-locking updates"
+	if bad != nil {
+		what += " (store holds an unrepresentable item: " + bad.Kind + ")"
+	}
+	r.Guard(what, func() {
 		var wg sync.WaitGroup
 		for w := 0; w < 3; w++ {
 			w := w
@@ -396,6 +407,9 @@ func concurrentAttempts(t *testing.T, r *ev.Run) {
 	r.Count("concurrent_export_attempts_completed", int(attempts.Load()))
 	r.Count("concurrent_write_locking_updates_completed", int(writes.Load()))
 	f := fault{Exporter: "all", Kind: "concurrent-with-writers", M: 3, L: 3}
+	if bad != nil {
+		f.Kind = "concurrent-with-writers+" + bad.Kind
+	}
 	r.Distinct(fmt.Sprintf("%+v", f))
 	judge(r, f, st, ms)
 }
